@@ -102,6 +102,28 @@ def run(F, R, tier):
                         R.ob("C08-V", "%s: specifier range is the range of the node the specifier text is read from" % m, ok,
                              "specifier `%s` but range `%s`" % (expr_text(sp)[:50], expr_text(rng)[:50]), where(st[0]))
 
+    # every comment is inspected: the loops that scan a module's comments for pragmas and
+    # JSDoc imports never stop early (comment order is unspecified: `iter_unstable`)
+    n_cl = 0
+    for b in F.bodies:
+        if b.get("derived") or b["file"] != "src/ast/mod.rs":
+            continue
+        for lp in [n for n in b["_nodes"] if n["k"] == "For"]:
+            binds = pat_bindings(lp["pat"])
+            if not (tyc(F, lp["iter"], "Comment") or any(tyc(F, b_, "comments::Comment") or tyc(F, b_, "::Comment") for b_ in binds)):
+                continue
+            n_cl += 1
+            early = []
+            for x in walk(lp["body"]):
+                if x.get("k") in ("Break", "Ret"):
+                    inner = [a for a in k_ancestors(x) if a.get("k") in ("For", "While", "Loop", "Closure") and is_within(a, lp["body"])]
+                    if inner:
+                        continue
+                    early.append(x)
+            R.ob("C08-V", "every comment is inspected by %s" % b["path"].split("::")[-1], not early,
+                 "the comment loop of %s can stop early (`%s`): pragmas / JSDoc imports in comments visited later are not reported" % (b["path"].split("::")[-1], expr_text(early[0])[:20] if early else ""), where(early[0]) if early else "")
+    R.floor("C08-V comment loops", n_cl, 2)
+
     # ---------------- C08-Q ------------------------------------------------
     finders = {}
     for b in F.bodies:
